@@ -242,7 +242,7 @@ def classify(w):
     return None
 
 
-GENS = {"history": Gen(case_history, 1000, 16000)}
+GENS = {"history": Gen(case_history, 1000, 8000)}
 MIN_EVALS = {"request-shape": 2000, "sample-equals-model": 5000,
              "chunking-independent": 1000, "magnitude-bound": 2000,
              "zero-doppler-constant": 300}
